@@ -3,18 +3,19 @@
 # verifies the seed in a scratch worktree (suite passes, demo fails with / passes without), runs the given checks against the patched
 # scratch tree (VERIF_REPO / VERIF_SCRATCH, so /repo, evidence/ and build/ are untouched) and stores everything under /verif/seeded/<out id>/
 set -u
+VH=${VERIF_HOME:-/verif}   # the machinery to run (a snapshot copy lets /verif be edited while a batch runs); results always go to /verif/seeded
 SRC=$(realpath "$1"); ID=$2; shift; shift
 OUT=/verif/seeded/$ID
 mkdir -p "$OUT"
 cp "$SRC/patch.diff" "$OUT/patch.diff"; cp "$SRC/seed_demo.rs" "$OUT/seed_demo.rs"
-V=$(/verif/tool/seedverify.sh "$SRC" | tail -4)
+V=$($VH/tool/seedverify.sh "$SRC" | tail -4)
 echo "$V" > "$OUT/verify.log"
 WT=$(mktemp -d /tmp/sr-XXXXXX)
 git -C /repo worktree add -q --detach "$WT/repo" HEAD
 ( cd "$WT/repo" && git apply "$SRC/patch.diff" ) || { echo "patch does not apply"; git -C /repo worktree remove --force "$WT/repo"; rm -rf "$WT"; exit 3; }
 RES=""
 for pid in "$@"; do
-  o=$(VERIF_REPO="$WT/repo" VERIF_SCRATCH="$WT/scratch" /verif/check $pid 2>&1); rc=$?
+  o=$(VERIF_REPO="$WT/repo" VERIF_SCRATCH="$WT/scratch" $VH/check $pid 2>&1); rc=$?
   echo "=== check $pid exit=$rc" >> "$OUT/checks.log"; echo "$o" | grep -E "^(VIOLATION|UNDECIDED|KNOWN|property)" | cut -c1-300 >> "$OUT/checks.log"
   RES="$RES $pid:$rc"
 done
